@@ -23,7 +23,10 @@ CONSTANTS Opcodes,    \* subset of {0, 4, 5}
           IdSel,      \* message ids (0 and 65535 are the boundary values)
           PadSel,     \* EDNS padding block sizes (0 = none)
           ZoneClsSel, \* class of the zone of an update (1 = IN, 3 = CH)
-          MaxSel      \* max_size of the low-level renderer (small values force rollbacks)
+          MaxSel,     \* max_size of the low-level renderer (small values force rollbacks)
+          OptIdx,     \* subset of 0..Len(OptMenu): 0 = no extra option, i = append OptMenu[i] to the OPT
+          SecSel,     \* sections record sets may go to (subset of 1..3)
+          QuestionSel \* subset of BOOLEAN: TRUE = a question may be added
 VARIABLE hist
 TtlOne == {<<0, 300>>}
 TtlMany == {<<0, 300>>, <<0, 0>>, <<32767, 65535>>}
@@ -36,11 +39,36 @@ UName(i) == CASE i = 1 -> <<lex>> [] i = 2 -> <<la, lex>> [] i = 3 -> <<lb, la, 
 Owners == {UName(i) : i \in NameSel}
 Targets == {UName(i) : i \in TargetSel}
 
+\* Every option code the library types or could plausibly type (0..20, 65001) with boundary bodies that
+\* are well-formed for the code's RFC (7871 ECS, 7873 COOKIE, 7828 KEEPALIVE, 8914 EDE, 7314 EXPIRE, 7901
+\* CHAIN, 8145 KEY-TAG, 9567 REPORT-CHANNEL, 9660 ZONEVERSION, 7830 PADDING, 6975 DAU/DHU/N3U, 5001 NSID);
+\* the codec treats them as generic (code, body) pairs.
+NmEx == <<2, 101, 120, 0>>
+OptMenu == <<
+  <<0, <<>>>>, <<0, <<0>>>>, <<1, Fill(18, 0)>>, <<1, Fill(18, 255)>>, <<2, Fill(4, 0)>>, <<2, Fill(4, 255)>>,
+  <<3, <<>>>>, <<3, <<0>>>>, <<3, <<0, 0>>>>, <<3, <<255, 255>>>>, <<3, Fill(40, 1)>>,
+  <<4, <<>>>>, <<4, <<0>>>>,
+  <<5, <<>>>>, <<5, <<0>>>>, <<5, <<255, 255>>>>, <<6, <<>>>>, <<6, <<0, 0>>>>, <<7, <<>>>>, <<7, <<0>>>>,
+  <<8, <<0, 1, 0, 0>>>>, <<8, <<0, 2, 0, 0>>>>, <<8, <<0, 1, 24, 0, 10, 0, 0>>>>, <<8, <<0, 1, 32, 0, 255, 255, 255, 255>>>>,
+  <<9, <<>>>>, <<9, Fill(4, 0)>>, <<9, Fill(4, 255)>>,
+  <<10, Fill(8, 0)>>, <<10, Fill(8, 255)>>, <<10, Fill(16, 0)>>, <<10, Fill(40, 255)>>,
+  <<11, <<>>>>, <<11, <<0, 0>>>>, <<11, <<0, 1>>>>, <<11, <<255, 255>>>>,
+  <<12, <<>>>>, <<12, <<0>>>>, <<12, <<0, 0>>>>, <<12, Fill(40, 0)>>,
+  <<13, <<0>>>>, <<13, NmEx>>,
+  <<14, <<>>>>, <<14, <<0, 0>>>>, <<14, <<255, 255>>>>, <<14, <<0, 0, 255, 255>>>>,
+  <<15, <<0, 0>>>>, <<15, <<255, 255>>>>, <<15, <<0, 1, 120>>>>, <<15, <<0, 24>> \o Fill(38, 120)>>,
+  <<16, <<0, 0>>>>, <<16, <<255, 255>>>>, <<17, <<0, 0>>>>, <<17, <<255, 255>>>>,
+  <<18, <<0>>>>, <<18, NmEx>>,
+  <<19, <<>>>>, <<19, <<0, 0>>>>, <<19, <<1, 0, 0, 0, 0, 0>>>>, <<19, <<1, 0, 255, 255, 255, 255>>>>,
+  <<20, <<>>>>, <<20, <<0>>>>, <<20, <<0, 0>>>>, <<20, <<255, 255>>>>,
+  <<65001, <<>>>>, <<65001, <<0>>>>, <<65001, <<0, 0>>>>, <<65001, <<255, 255>>>>, <<65001, Fill(40, 255)>> >>
+WithOption(ed, i) == IF i = 0 \/ ed[1] = "none" THEN ed ELSE <<ed[1], ed[2], ed[3], ed[4], Append(ed[5], OptMenu[i])>>
+
 EdnsOf(e, rc) ==      \* <<"none">> or <<"edns", version, eflags, payload, options>>
     CASE e = "off" -> <<"none">>
       [] e = "v0" -> <<"edns", 0, 0, 1232, <<>>>>
       [] e = "do" -> <<"edns", 0, 32768, 4096, <<>>>>
-      [] e = "opts" -> <<"edns", 0, 32768, 1400, <<<<10, 8, 7>>, <<65001, 0, 0>>, <<15, 3, 1>>>>>>
+      [] e = "opts" -> <<"edns", 0, 32768, 1400, <<<<10, Fill(8, 7)>>, <<65001, <<>>>>, <<15, <<1, 1, 1>>>>>>>>
       [] OTHER -> <<"edns", 1, 1, 512, <<>>>>
 
 Rec(sec, name, kind, n1, n2, k, nrd, ttl, form) ==
@@ -68,14 +96,14 @@ Fresh(r) == LET rs == MkRRset(r, RfcCmp, Zc) IN
 
 GInit ==
     \E op \in Opcodes, bits \in BitSel, rc \in RcodeSel, e \in EdnsSel, org \in OriginSel,
-       id \in IdSel, pad \in PadSel, zc \in ZoneClsSel, mx \in MaxSel :
-      /\ (rc > 15 => e # "off") /\ (pad > 0 => e # "off") /\ (op # OpUpdate => zc = ClsIN)
+       id \in IdSel, pad \in PadSel, zc \in ZoneClsSel, mx \in MaxSel, oi \in OptIdx :
+      /\ (rc > 15 => e # "off") /\ (pad > 0 => e # "off") /\ (op # OpUpdate => zc = ClsIN) /\ (oi > 0 => e # "off")
       /\ LET h == [op |-> "hdr", id |-> id, opcode |-> op, bits |-> bits, rcode |-> rc, origin |-> org,
-                   edns |-> EdnsOf(e, rc), pad |-> pad, zcls |-> zc, max |-> mx]
+                   edns |-> WithOption(EdnsOf(e, rc), oi), pad |-> pad, zcls |-> zc, max |-> mx]
          IN hist = <<h>> /\ RInit(id, HdrFlags(h), mx)
 
 GQuestion ==
-    /\ Len(hist) = 1
+    /\ Len(hist) = 1 /\ (TRUE \in QuestionSel \/ Hdr.opcode = OpUpdate)
     /\ \E q \in (IF Hdr.opcode = OpUpdate THEN {[name |-> UName(1), type |-> TySOA, cls |-> Hdr.zcls]}
                  ELSE {[name |-> n, type |-> TyA, cls |-> ClsIN] : n \in Owners \ (IF Hdr.origin THEN {UName(4)} ELSE {})}) :
          AddQuestion(q) /\ H([op |-> "q", name |-> q.name, type |-> q.type, cls |-> q.cls])
@@ -83,7 +111,7 @@ GQuestion ==
 GRec ==
     /\ NRecs < MaxRecs /\ hist[Len(hist)].op # "end"
     /\ (Hdr.opcode = OpUpdate => Len(hist) > 1)          \* an update needs its zone first
-    /\ \E sec \in 1..3 : \E r \in RecU(sec, FormsFor(Hdr.opcode, sec)) \cup (IF Hdr.opcode = OpUpdate THEN {} ELSE BigU(sec)) :
+    /\ \E sec \in SecSel : \E r \in RecU(sec, FormsFor(Hdr.opcode, sec)) \cup (IF Hdr.opcode = OpUpdate THEN {} ELSE BigU(sec)) :
          /\ sec >= st.section /\ Fresh(r)
          /\ (Hdr.origin => UName(4) \notin {r.name, r.n1, r.n2})   \* see notes/C03.md, O2
          /\ (Zc # ClsIN => r.kind \notin {"A", "SRV"})          \* class-specific RDATA layouts
